@@ -73,9 +73,10 @@ def run(ctx):
     # ---- C10.3 order-preserving primitives --------------------------------------
     bf = ctx.fn(MP + ":batch_evaluate_function")
     fa = FA(bf)
-    outs = fa.find(lambda s: isinstance(s, ast.Assign) and isinstance(s.targets[0], ast.Name) and s.targets[0].id == "out")
     rets = fa.find(lambda s: isinstance(s, ast.Return))
-    ctx.require(len(rets) == 1 and src(fa.stmt(rets[0]).value) == "out", "batch_evaluate_function: expected a single `return out`")
+    ctx.require(len(rets) == 1 and isinstance(fa.stmt(rets[0]).value, ast.Name), "batch_evaluate_function: expected a single `return <result variable>`")
+    outname = fa.stmt(rets[0]).value.id
+    outs = fa.find(lambda s: isinstance(s, ast.Assign) and isinstance(s.targets[0], ast.Name) and s.targets[0].id == outname)
     ctx.ob("R-ORDER", "C10.3", bf, "every branch (pool x vectorised x chunksize) produces a result", fa.cfg.every_exit_path_passes(fa.cfg.entry, outs), f"{len(outs)} result assignments")
     seen_cfg = set()
     for nid in outs:
@@ -117,8 +118,11 @@ def run(ctx):
         want_pool = "self.pool" if name == "batch_evaluate_log_likelihood" else "self.pool if self.parallelise_prior else None"
         ctx.ob("R-SIB", "C10.4", f, "pool selection: likelihood always uses the pool, priors only when parallelise_prior", pool is not None and src(pool) == want_pool and "n_pool" in kw and src(kw["n_pool"]) == "self.n_pool", f"pool=`{src(pool)}`")
     cv = ctx.fn(MP + ":check_vectorised_function")
-    tg = [n for n in walk_no_nested(cv.node) if isinstance(n, ast.Assign) and isinstance(n.targets[0], ast.Name) and n.targets[0].id == "target"]
-    ctx.ob("R-SIB", "C10.4", cv, "vectorisation probe compares the batch call against point-by-point calls of the same function", len(tg) == 1 and "[func(xx) for xx in x]" in src(tg[0].value) and any(isinstance(n, ast.Call) and call_name(n) == "np.allclose" for n in walk_no_nested(cv.node)), "")
+    from ..pat import find_stmt, find_expr
+    tg = find_stmt("$$t = array([func($$e) for $$e in x], dtype=dtype)", cv.node)
+    bt = find_stmt("$$b = func(x).astype(dtype)", cv.node)
+    cmp_ = find_expr("allclose($$t, $$b, atol=atol, rtol=rtol)", cv.node)
+    ctx.ob("R-SIB", "C10.4", cv, "vectorisation probe compares the batch call against point-by-point calls of the same function", len(tg) == 1 and len(bt) == 1 and len(cmp_) == 1 and src(cmp_[0][1]["t"]) == src(tg[0][1]["t"]) and src(cmp_[0][1]["b"]) == src(bt[0][1]["b"]), "")
     ctx.floor("C10.4", 12)
     ctx.assumptions += ["pool.map / builtin map / list comprehensions return results in input order; np.array_split and np.concatenate preserve order", "value equality between vectorised and pointwise evaluation of a user function is the user's contract (probed at run time)"]
 
